@@ -85,7 +85,8 @@ def gen_src():
     rc, out, err = sh('%s/tools/rs2coq/run.sh' % VERIF, timeout=1200)
     if rc != 0:
         raise PrepareError('rs2coq', 'the Rust-to-Gallina translator could not translate /repo/src (exit %d): %s' % (rc, (out + err)[-1500:]))
-    _prepared['src'] = ' | '.join(l for l in (out + err).strip().split('\n') if l.startswith('rs2coq'))[-600:]
+    lines = [l for l in (out + err).strip().split('\n') if l.startswith('rs2coq')]
+    _prepared['src'] = ' | '.join(lines[:2] + ['%d output files up to date' % sum(1 for l in lines if l.endswith('is up to date'))] + [l for l in lines[2:] if not l.endswith('is up to date')])[-900:]
     return _prepared['src']
 
 
